@@ -24,6 +24,17 @@ CHECKS['C08'] = dict(
     note='single-character terminals so that offsets are certain; LALR on S/R or non-reduced grammars judged against the automaton of LALR.tla; two known findings (non-reduced grammars, LALR loop)',
     ref='6/C08')
 
+CHECKS['C07'] = dict(
+    technique='TLA+ lexer spec (documented order + keyword rule as L0, unless/embedded mechanism as L1) model-checked over finite-language terminals (TLC) + trace validation of real basic and contextual token streams and basic-vs-contextual parse results',
+    text='TLC proves over all small terminal sets (finite languages, priorities, ignore, every text) that the unless/embedded mechanism equals the documented first-match-in-order + keyword rule except for the named spelling deviation, and that restricting the lexer to a context containing the types of its tokens does not change them (contextual refinement); the same operators judge every token (type, extent, error offset) the real Lark.lex and the real contextual lexer (driven by the real parser state) produce on random terminal sets from a catalogue, str and bytes, >100 terminals, and compare basic/contextual parse results.',
+    note="Python re and sre_parse decide single-terminal matches and widths; scanner chunking unreachable on CPython 3.12; one known finding (keyword decided on spelling)",
+    ref='6/C07')
+CHECKS['C06'] = dict(
+    technique='TLA+ LineCounter machine model-checked against the newline-count definition of coordinates (TLC) + trace validation of real token coordinates (four lexers, str/bytes) and Tree.meta spans',
+    text='TLC proves that the LineCounter machine yields exact coordinates iff every newline-matching token is fed with the newline test on (the flag obligation); the same Coord definition then judges line/column/end_line/end_column of every token the real basic and contextual lexers yield on newline-heavy terminal sets (\\W \\D [\\x00-\\x20] \\012 (?s:.) ...), of every token inside parse trees under all four lexers for str and bytes, and Tree.meta (first-to-last matched token incl. filtered ones, children ordered/disjoint/nested).',
+    note='token extents and newline offsets are read off the text; end-coordinate convention per lexer family as stated',
+    ref='6/C06')
+
 NOT_APPLICABLE = []
 
 
